@@ -58,7 +58,7 @@ pub fn build_derive(input: TokenStream) -> Result<TokenStream> {
     build_from_derive_input(parse2(input)?)
 }
 fn build_from_derive_input(item: DeriveInput) -> Result<TokenStream> {
-    let mut kinds = HelperAttributeKinds::new(true);
+    let mut kinds = HelperAttributeKinds::new(true, false);
     match &item.data {
         Data::Struct(data) => {
             build_by_item_struct_core(None, &to_item_struct(&item, data), &mut kinds)
@@ -91,7 +91,7 @@ fn to_item_enum(item: &DeriveInput, data: &DataEnum) -> ItemEnum {
 }
 
 pub fn build_by_item_struct(attr: TokenStream, item: &mut ItemStruct) -> Result<TokenStream> {
-    let mut kinds = HelperAttributeKinds::new(true);
+    let mut kinds = HelperAttributeKinds::new(true, true);
     let result = build_by_item_struct_core(Some(attr), item, &mut kinds);
     remove_attrs(&mut item.attrs, &kinds);
     for field in &mut item.fields {
@@ -135,7 +135,7 @@ fn build_by_item_struct_core(
     Ok(ts_all)
 }
 pub fn build_by_item_enum(attr: TokenStream, item: &mut ItemEnum) -> Result<TokenStream> {
-    let mut kinds = HelperAttributeKinds::new(true);
+    let mut kinds = HelperAttributeKinds::new(true, true);
     let result = build_by_item_enum_core(Some(attr), item, &mut kinds);
     remove_attrs(&mut item.attrs, &kinds);
     for variant in &mut item.variants {
@@ -1080,11 +1080,12 @@ struct DeriveEntry {
 }
 impl DeriveEntry {
     fn from_root(attr: Option<TokenStream>, attrs: &[Attribute]) -> Result<Vec<Self>> {
+        let with_path = attr.is_some();
         let mut args_list = Vec::new();
         if let Some(attr) = attr {
             args_list.push(parse2(attr)?);
         }
-        args_list.extend(parse_derive_ex_attrs(attrs)?);
+        args_list.extend(parse_derive_ex_attrs(attrs, with_path)?);
         Self::from_args_list(&args_list)
     }
     fn from_args_list(args_list: &[Args]) -> Result<Vec<Self>> {
@@ -1247,6 +1248,9 @@ impl<'a> FieldEntry<'a> {
 #[derive(Debug, Default, Copy, Clone)]
 struct HelperAttributeKinds {
     derive_ex: bool,
+    /// The attribute macro is running: other `derive_ex` lists of the item may be spelled with the
+    /// name of this crate in front (`#[derive_ex::derive_ex(..)]`), a helper attribute of `#[derive(Ex)]` may not.
+    derive_ex_path: bool,
     default: bool,
     debug: bool,
     ord: bool,
@@ -1257,9 +1261,10 @@ struct HelperAttributeKinds {
 }
 
 impl HelperAttributeKinds {
-    fn new(derive_ex: bool) -> Self {
+    fn new(derive_ex: bool, derive_ex_path: bool) -> Self {
         Self {
             derive_ex,
+            derive_ex_path,
             ..Self::default()
         }
     }
@@ -1296,6 +1301,9 @@ impl HelperAttributeKinds {
 
     fn is_match(&self, attr: &Attribute) -> bool {
         let p = attr.path();
+        if self.derive_ex_path && is_derive_ex_path(p, true) {
+            return self.derive_ex;
+        }
         let Some(i) = p.get_ident() else {
             return false;
         };
@@ -1334,7 +1342,7 @@ impl HelperAttributes {
         kinds: &HelperAttributeKinds,
     ) -> Result<Self> {
         let items = if kinds.derive_ex {
-            DeriveEntry::from_args_list(&parse_derive_ex_attrs(attrs)?)?
+            DeriveEntry::from_args_list(&parse_derive_ex_attrs(attrs, kinds.derive_ex_path)?)?
                 .into_iter()
                 .map(|x| (x.kind, x))
                 .collect()
@@ -1521,10 +1529,24 @@ fn remove_attrs(attrs: &mut Vec<Attribute>, kinds: &HelperAttributeKinds) {
     attrs.retain(|attr| !kinds.is_match(attr));
 }
 
-fn parse_derive_ex_attrs<T: Parse>(attrs: &[Attribute]) -> Result<Vec<T>> {
+/// `derive_ex` - with `with_path` also when the name of this crate is written in front of it
+/// (`derive_ex::derive_ex`, `::derive_ex::derive_ex`).
+fn is_derive_ex_path(path: &Path, with_path: bool) -> bool {
+    let len_ok = match path.segments.len() {
+        1 => path.leading_colon.is_none(),
+        2 => with_path,
+        _ => false,
+    };
+    len_ok
+        && path
+            .segments
+            .iter()
+            .all(|s| s.arguments.is_none() && s.ident == "derive_ex")
+}
+fn parse_derive_ex_attrs<T: Parse>(attrs: &[Attribute], with_path: bool) -> Result<Vec<T>> {
     let mut items = Vec::new();
     for attr in attrs {
-        if attr.path() == &parse_quote!(derive_ex) {
+        if is_derive_ex_path(attr.path(), with_path) {
             items.push(attr.parse_args()?);
         }
     }
